@@ -93,7 +93,9 @@ class Env:
         d_exp: Dict[Symbol, Boolean] = {}
         n_exps = []
         for s, e in deff[3]:
-            new_e = e.subs(d_exp)
+            # Simultaneous: the definitions seen so far all hold at this point, none of them
+            # may be applied to the result of another (a callee re-assigning two arguments)
+            new_e = e.xreplace(d_exp)
             d_exp[s] = new_e
             n_exps.append((s, new_e))
 
